@@ -73,8 +73,13 @@ theorem minutesToHex_rejects (m : Nat) (h : ¬ 60 * m < 4294967296) : minutesToH
   have : ((m : Int) * 60) = ((60 * m : Nat) : Int) := by push_cast; omega
   rw [this, packLE32_big _ h]; rfl
 
+/-- the accepted range observed by the translator on the current source IS the protocol's 1 h .. 23 h 59 m (however the guard is spelt) -/
 theorem inChain_td (x : Int) : inChain "timedelta_to_hexadecimal_seconds" x = decide (3599 < x ∧ x < 86341) := by
-  simp [inChain, Gen.chainGuards, cmpOp]
+  have h : inChain "timedelta_to_hexadecimal_seconds" x = (decide (3600 ≤ x) && decide (x ≤ 86340)) := by
+    simp [inChain, Gen.chainGuards, cmpOp]
+  rw [h, Bool.eq_iff_iff]
+  simp only [Bool.and_eq_true, decide_eq_true_eq]
+  omega
 
 /-- auto shutdown: whole minutes of the timedelta, accepted iff within 1 h .. 23 h 59 m -/
 theorem timedeltaToHex_ok (micros : Nat) (h1 : 3600 ≤ 60 * (micros / 60000000)) (h2 : 60 * (micros / 60000000) ≤ 86340) :
